@@ -2,18 +2,20 @@
    Executable only. *)
 From Coq Require Import List ZArith String Bool.
 From GZ Require Export Lib.CheckLib C03.Model.
+From GZgen Require C03Consts.
 Import ListNotations.
 Open Scope Z_scope.
 
 (* what the executor saw for one TokenLimiter op *)
 Inductive seen_t :=
 | OA (granted alive_before alive_after : bool)
+| OP (alive : bool)          (* after a monitor tick (the executor waited >= 20 monitor periods) *)
 | ON.
 
 (* the executor runs on miniredis: expiry_inclusive = true *)
 Inductive case :=
 | CPeriod (cfg : pcfg) (base_ms : Z) (ops : list pop) (obs : list pobs)
-| CToken (rt bs : Z) (base_ms : Z) (ninst : nat) (ops : list top) (obs : list seen_t).
+| CToken (rt bs : Z) (kt kts : bulk) (base_ms : Z) (ninst : nat) (ops : list top) (obs : list seen_t).
 
 (* the circuit breaker of go-zero's redis client is not modelled; its decision is the oracle
    [brk] of an op, read off the error class.  It is ACCEPTED only where the real breaker can
@@ -22,7 +24,6 @@ Inductive case :=
    before (2*2+1 = 5 < 6 <= 2*3+1). *)
 Definition brk_min_failed_calls : Z := 3.
 
-Definition token_cfg (rt bs : Z) : tcfg := mkCfg rt bs (BStr "{tk}.tokens") (BStr "{tk}.ts").
 
 (* ------------------------------------------------------------------ agreement *)
 Definition pobs_eqb (a b : pobs) : bool :=
@@ -46,6 +47,8 @@ Fixpoint tbrk_ok (failed : Z) (ops : list top) (obs : list seen_t) : bool :=
   match ops, obs with
   | TAllow _ _ _ _ brk :: ops', OA _ b a :: obs' =>
     (brk || (brk_min_failed_calls <=? failed)) && tbrk_ok (if (b && negb a)%bool then failed + 1 else failed) ops' obs'
+  | TAllowF _ _ _ _ (RErr _) :: ops', OA _ b a :: obs' =>
+    tbrk_ok (if (b && negb a)%bool then failed + 1 else failed) ops' obs'
   | _ :: ops', _ :: obs' => tbrk_ok failed ops' obs'
   | _, _ => true
   end.
@@ -59,9 +62,12 @@ Fixpoint tagree (c : tcfg) (s : tstate) (ops : list top) (obs : list seen_t) : b
   | o :: ops', ob :: obs' =>
     let '(s', r) := tstep c s o in
     match o, ob, r with
-    | TAllow i _ _ _ _, OA g b a, TR g' a' _ =>
+    | TAllow i _ _ _ _, OA g b a, TR g' a' _
+    | TAllowF i _ _ _ _, OA g b a, TR g' a' _
+    | TAllowC i _ _ _, OA g b a, TR g' a' _ =>
       Bool.eqb g g' && Bool.eqb a a' && Bool.eqb b (alive_of s i)
-    | TAllow _ _ _ _ _, _, _ => false
+    | TAllow _ _ _ _ _, _, _ | TAllowF _ _ _ _ _, _, _ | TAllowC _ _ _ _, _, _ => false
+    | TPing i, OP a, TU => Bool.eqb a (alive_of s' i)
     | _, ON, TU => true
     | _, _, _ => false
     end && tagree c s' ops' obs'
@@ -71,27 +77,41 @@ Fixpoint tagree (c : tcfg) (s : tstate) (ops : list top) (obs : list seen_t) : b
 Definition agrees (c : case) : bool :=
   match c with
   | CPeriod cfg base ops obs => list_eqb pobs_eqb (prun cfg (pinit true base) ops) obs && pbrk_ok 0 ops obs
-  | CToken rt bs base n ops obs => tagree (token_cfg rt bs) (tinit true base n) ops obs && tbrk_ok 0 ops obs
+  | CToken rt bs kt kts base n ops obs => tagree (mkCfg rt bs kt kts) (tinit true base n) ops obs && tbrk_ok 0 ops obs
   end.
 
 (* ------------------------------------------------------------------ the property *)
-Definition pop_wf (o : pop) : bool := match o with PAdvance ms => 0 <=? ms | _ => true end.
+(* time does not run backwards; the faulty store does not forge a verdict of the script *)
+Definition pop_wf (o : pop) : bool :=
+  match o with PAdvance ms => 0 <=? ms | PTakeF _ f => negb (pforged f) | _ => true end.
 
-(* rescue-mode calls of one instance: (now_ns, n, granted) *)
-Fixpoint bound_from (I cap t0 acc : Z) (calls : list (Z * Z * bool)) : bool :=
+(* rescue-mode calls of one instance: (now_ns, n, granted); a grant of n costs n*I, an elapsed
+   ns is worth m, the bucket holds cap *)
+Fixpoint bound_from (I m cap t0 acc : Z) (calls : list (Z * Z * bool)) : bool :=
   match calls with
   | [] => true
   | (t, n, g) :: cs =>
     let acc' := if g then acc + n * I else acc in
-    (acc' <=? cap + (t - t0)) && bound_from I cap t0 acc' cs
+    (acc' <=? cap + m * (t - t0)) && bound_from I m cap t0 acc' cs
   end.
 
-(* over EVERY interval of the instance's rescue calls: granted <= burst + elapsed/interval *)
-Fixpoint local_bound_ok (I cap : Z) (calls : list (Z * Z * bool)) : bool :=
+(* over EVERY interval of the instance's rescue calls *)
+Fixpoint local_bound_ok (I m cap : Z) (calls : list (Z * Z * bool)) : bool :=
   match calls with
   | [] => true
-  | (t, n, g) :: cs => bound_from I cap t 0 calls && local_bound_ok I cap cs
+  | (t, n, g) :: cs => bound_from I m cap t 0 calls && local_bound_ok I m cap cs
   end.
+
+(* THE LOCAL BOUND of the property: granted <= burst + rate * elapsed, in units of 10^-9 token:
+   granted*10^9 <= burst*10^9 + rate*(elapsed ns + 2).  (The 2 ns: x/time/rate truncates the
+   waiting time of a reservation to whole ns, so it grants up to 1 ns early.)
+   Only the tree as it was before the repair 9e9cefb (rescue limiter built from the truncated
+   interval floor(10^9/rate) ns, regenerated flag gen_rescue_exact = false) is judged by the
+   weaker bound granted*interval <= burst*interval + elapsed ns. *)
+Definition rescue_bound_ok (rt bs : Z) (calls : list (Z * Z * bool)) : bool :=
+  if C03Consts.gen_rescue_exact
+  then local_bound_ok 1000000000 rt (bs * 1000000000 + 2 * rt) calls
+  else local_bound_ok (interval_ns rt) 1 (bs * interval_ns rt) calls.
 
 (* walk the observed history: decisions taken with a reachable store and redisAlive = 1 must be
    the ideal shared bucket's (and must not fall back); the others are collected per instance *)
@@ -104,6 +124,29 @@ Fixpoint token_walk (rt bs : Z) (b : bucket) (down : bool) (ops : list top) (obs
       let '(ok, acc') := token_walk rt bs b' down ops' obs' acc in
       (Bool.eqb g e && after && ok, acc')
     else token_walk rt bs b down ops' obs' (acc ++ [(i, (now * 1000000, n, g))])
+  | TAllowF i now n _ r :: ops', OA g before after :: obs' =>
+    (* a faulted call: a reply that is no verdict of the script is never a grant by the store -
+       nil / another number: refused, the instance stays on the store; an error / a non-integer:
+       the instance falls back and the answer is its rescue limiter's *)
+    if before then
+      match r with
+      | RNil | RInt _ =>
+        let '(ok, acc') := token_walk rt bs b down ops' obs' acc in
+        ((match r with RInt 1 => true | _ => negb g end) && after && ok, acc')
+      | _ =>
+        let '(ok, acc') := token_walk rt bs b down ops' obs' (acc ++ [(i, (now * 1000000, n, g))]) in
+        (negb after && ok, acc')
+      end
+    else token_walk rt bs b down ops' obs' (acc ++ [(i, (now * 1000000, n, g))])
+  | TAllowC i now n _ :: ops', OA g before after :: obs' =>
+    (* the caller's context is already cancelled: refused, no fallback *)
+    if before then
+      let '(ok, acc') := token_walk rt bs b down ops' obs' acc in (negb g && after && ok, acc')
+    else token_walk rt bs b down ops' obs' (acc ++ [(i, (now * 1000000, n, g))])
+  | TPing i :: ops', OP a :: obs' =>
+    (* RECOVERY: once the store answers again, every instance is back on the shared bucket
+       within a monitor period (the executor gave it >= 20) *)
+    let '(ok, acc') := token_walk rt bs b down ops' obs' acc in ((down || a) && ok, acc')
   | TDown :: ops', _ :: obs' => token_walk rt bs b true ops' obs' acc
   | TUp :: ops', _ :: obs' => token_walk rt bs b false ops' obs' acc
   | _ :: ops', _ :: obs' => token_walk rt bs b down ops' obs' acc
@@ -119,15 +162,15 @@ Definition prop_ok (c : case) : bool :=
     if (1 <=? pperiod cfg) && forallb pop_wf ops
     then list_eqb pobs_eqb (sp_prun cfg (sp_pinit true base) ops) obs
     else true
-  | CToken rt bs base n ops obs =>
+  | CToken rt bs kt kts base n ops obs =>
     if (1 <=? rt) && (rt <=? 1000000000) && (0 <=? bs) && (0 <=? base) && twf base ops then
       let '(ok, acc) := token_walk rt bs (mkB bs 0) false ops obs [] in
-      ok && forallb (fun i => local_bound_ok (interval_ns rt) (bs * interval_ns rt) (calls_of i acc)) (seq 0 n)
+      ok && forallb (fun i => rescue_bound_ok rt bs (calls_of i acc)) (seq 0 n)
     else true
   end.
 
 Definition model_obs (c : case) :=
   match c with
   | CPeriod cfg base ops obs => (prun cfg (pinit true base) ops, [])
-  | CToken rt bs base n ops obs => ([], trun (token_cfg rt bs) (tinit true base n) ops)
+  | CToken rt bs kt kts base n ops obs => ([], trun (mkCfg rt bs kt kts) (tinit true base n) ops)
   end.
